@@ -136,6 +136,9 @@ class PbnWriter(Writer):
         self.write_tag_pair('Result',
                             '' if contract.is_passed_out() else str(
                                 taken_tricks))
+        # An empty line ends the game, so that consecutive board results are
+        # separate games.
+        self.writer.write('\n')
         # TODO: Implement optional fields.
 
 
